@@ -24,7 +24,9 @@ def collect(tier: str, seed: int):
     n_threads, per_thread = (8, 150) if tier == "quick" else (16, 2000)
     prefixes = ["leaf", "materialization", "a_b", "x", "tmp_0001", "leaf_0000",
                 # long prefixes: the whole name (prefix, counter AND uuid) must survive whatever its length
-                "p" * 57, "q" * 61 + "_x", "long_prefix_" + "r" * 70]
+                "p" * 57, "q" * 61 + "_x", "long_prefix_" + "r" * 70,
+                # prefixes that END in underscores: the name must still begin with exactly what was requested
+                "tmp__", "scratch___", "a_", "__"]
     names: list[tuple[str, str, str]] = []  # (experiment, prefix, name)
     engines = [iteration.Engine(name="it"), sql.Engine(name="sq"), iteration.Engine(name="it2")]
     a = Tag("a")
